@@ -1094,7 +1094,7 @@ func r11_5(c *Ctx, t *tables) {
 					c.ok(k, in.Pos(), "%s", why)
 				} else if why := guardedIndexMore(f, base, idx, b); why != "" {
 					c.ok(k, in.Pos(), "%s", why)
-				} else if c.bceProven(in.Pos()) {
+				} else if c.bceProvenIn(f, in.Pos()) {
 					c.ok(k, in.Pos(), bceWhy)
 				} else {
 					c.bad(k, in.Pos(), "index %s[%s] is not shown to be in range: it can panic", base.Name(), idx.Name())
@@ -1106,7 +1106,7 @@ func r11_5(c *Ctx, t *tables) {
 				k := key("slice")
 				if why := guardedSlice(f, x, b); why != "" {
 					c.ok(k, in.Pos(), "%s", why)
-				} else if c.bceProven(in.Pos()) {
+				} else if c.bceProvenIn(f, in.Pos()) {
 					c.ok(k, in.Pos(), bceWhy)
 				} else {
 					c.bad(k, in.Pos(), "slice bounds of %s are not shown to be in range: it can panic", x.X.Name())
